@@ -75,7 +75,48 @@ def stats(raw):
     return {k: raw.count(' ' + k + ' ') for k in ('sw.tagged', 'sw.restore2', 'sw.set', 'task.rebind', 'sts.helper', 'sas.abort', 'sas.retry', 'body.enter', 'co.enter', 'co.yield', 'co.resume', 'co.return')}
 
 
+def backend_subcheck(ctx):
+    """The scheduler model treats the pending / staged queue back-ends as containers that return every entry once and, for a
+    yielded task (`other_end`), put it at the END the policy pops last.  That assumption is checked on the real
+    lockfree_lifo / lockfree_fifo / abp back-ends with the E1 cases of the C17 tie (model `deque`, back-end kinds)."""
+    from vlib import compile_harness, run_e1, classify, write_replay, HERE
+    ok, hbin, hlog = compile_harness('e1_deque', 'e1/deque.cpp', 'hooks', '-O1', libs='-latomic')
+    if not ok:
+        p = write_replay('C01', f"backend-build-failure-{ctx['seed']}.txt", hlog)
+        return {'violations': [f'VIOLATION property=C01 replay={p} no-failing-input-found'], 'explanation': 'queue back-end harness failed to build'}
+    rng = ctx['rng']
+    cases = []
+    for i in range(2000 if ctx['tier'] == 'thorough' else 300):
+        kind = rng.choice(['lifo', 'abp_fifo', 'abp_lifo', 'fifo', 'lifo'])
+        k = rng.weighted([(1, 4), (2, 4), (3, 2)])
+        lines = [f"case be{ctx['seed']}n{i} kind={kind} pool={rng.choice([1, 2, 4])} seed={rng.below(1 << 30)} strat={rng.weighted([(0, 5), (1, 3), (2, 3)])}"]
+        val = 1
+        for t in range(k):
+            ops = []
+            for _ in range(1 + rng.below(6)):
+                if rng.below(100) < 55:
+                    ops.append(f'bpush {val} {rng.below(2)}')
+                    val += 1
+                else:
+                    ops.append(f'bpop {rng.below(2)}')
+            lines.append(f'thread {t}: ' + ' ; '.join(ops) + ' ;')
+        lines.append('endcase')
+        cases.append('\n'.join(lines))
+    res = run_e1(hbin, 'deque', cases, tag='C01be')
+    bad = [(classify(r), c, r) for c, r in zip(cases, res) if classify(r) != 'pass']
+    out = {'explanation': f'queue back-end assumption: {len(cases)} E1 cases on the real back-ends, {len(bad)} not accepted', 'violations': []}
+    if bad:
+        k, c, r = ([b for b in bad if b[0] == 'monitor'] or bad)[0]
+        what = r['verdict'].split('monitors FAIL:')[-1].strip() if 'monitors FAIL' in r['verdict'] else r['verdict']
+        p = write_replay('C01', f"backend-{k}-{ctx['seed']}.json", {'property': 'C01', 'kind': k, 'part': 'queue back-end assumption of the scheduler model',
+                         'what': what, 'case': c, 'impl_history': r['raw'], 'model_verdict': r['verdict'], 'not_accepted': len(bad),
+                         'rerun_cmd': f'cd {HERE} && ./check C17 --replay <this file>'})
+        out['violations'].append(f'VIOLATION property=C01 replay={p}' + ('' if k == 'monitor' else ' no-failing-input-found'))
+    return out
+
+
 e2check.run(dict(
+    extra_check=backend_subcheck,
     prop='C01', model='schedco', harness='e2/sched.cpp', bin='e2_sched', props=['C01'], translators=['stateword.py'],
     runs=runs, extra_runs=extra_runs, nontrivial=nontrivial, stats=stats, par=3, timeout_s=900,
     rule='generated task programs (fan-out trees with yields, semaphore hand-shakes, boosted spin-waits, pika::thread and sender tasks, mixed priorities/stack sizes, 1-3 external submitter threads; "zoo": executed callables, scheduled senders with and without worker hints, register_work with run_now and staged, detached and joined pika::thread, mutex+condition_variable / latch / semaphore suspensions, recycling waves over all five stack classes, all five priorities, stealing switched off through the scheduler mode; "meet": more simultaneously blocked tasks per queue than max_thread_count while others are still staged) on the live runtime for every scheduling policy and several worker counts, with PRNG timing perturbation at the instrumented sites; non-trivial = the run contains at least one suspension wake-up and one recycled thread object; distinct = distinct argv',
